@@ -3,7 +3,7 @@
     grammar of DESIGN.md 4.1 — is not machine-checked yet; trees are decided by
     correspondence with the implementation and with the reference parser).
     Statements only. *)
-From JP Require Import Base Value Lexer Parser Gen.Tables Spec.TableSpec Proofs.PrattProof.
+From JP Require Import Base Value Lexer Parser Gen.Tables Spec.TableSpec Spec.Grammar Spec.Prec Proofs.PrattProof Proofs.GrammarProof.
 
 (** The binding-power table and the projection-stop threshold extracted from
     lexer.rs / parser.rs on this run have the documented order. Any change of
@@ -33,3 +33,24 @@ Theorem C04_accepts_whole_input_only : forall L STOP strict fuel toks t,
   exists st', expr L STOP strict fuel 0 (mkPst toks 0) = Ok (t, st') /\ peek st' 0 = TEof.
 Proof. exact parse_tokens_consumes_all. Qed.
 Print Assumptions C04_accepts_whole_input_only.
+
+(** The tree the reference parser returns is the one the documented binding
+    powers dictate: it is the abstract tree of a syntax tree of the expression in
+    which every operand (right operand of a binary operator, operand of [!],
+    right-hand side of a projection, what follows a dot, elements, arguments,
+    predicates) has at its top level only operators that bind strictly tighter
+    than the context it was read in ([prec], Spec/Prec.v, over the documented
+    table) — with [C04_operand_extends_maximally] (no tighter operator is left
+    unconsumed after an operand) this fixes the grouping of every pair of operators. *)
+Theorem C04_reference_tree_respects_binding_powers : forall s t, ref_parse s = Ok t ->
+  exists tokens c, tokenize s = Ok tokens /\ map snd tokens = flat c ++ [TEof] /\ erase c = t /\ wf c /\
+                   prec (fun tk => spec_lbp (kind_of tk)) 0 c.
+Proof. exact ref_parse_sound. Qed.
+Print Assumptions C04_reference_tree_respects_binding_powers.
+
+(** ... for any table (the code's included), on the parser model with the non-sentence branches closed. *)
+Theorem C04_tree_respects_binding_powers_any_table : forall L STOP fuel tokens t,
+  parse_tokens L STOP true fuel tokens = Ok t ->
+  exists c rest, map snd tokens = flat c ++ rest /\ erase c = t /\ wf c /\ prec L 0 c /\ hd TEof rest = TEof.
+Proof. exact ref_parser_sound. Qed.
+Print Assumptions C04_tree_respects_binding_powers_any_table.
